@@ -309,7 +309,11 @@ def run_common(ctx, pid="C21"):
         ctx.cov["traces_validated_against_impl"] += csumm["histories"]
         ctx.cov["evaluations"] += cres["n"]
         ctx.cov["distinct_nontrivial"] += csumm["overlapped"]
-        ctx.cov["trace_stats"]["conc"] = dict(cres["stats"], overlapped=csumm["overlapped"])
+        if csumm.get("probes", 0) and csumm.get("probes_interposed", 0) * 2 < csumm["probes"]:
+            raise vflib.Broken("directed interleavings: only %s of %s Gets parked at their clock read (the harness could not "
+                               "drive the schedule; not a verdict)" % (csumm.get("probes_interposed"), csumm["probes"]))
+        ctx.cov["trace_stats"]["conc"] = dict(cres["stats"], overlapped=csumm["overlapped"], directed_interleavings=csumm.get("probes", 0),
+                                              directed_interleavings_driven=csumm.get("probes_interposed", 0))
         for s in csumm.get("samples", [])[:1]:
             ctx.sample({"level": "concurrent", "history": s})
         if not q:
@@ -328,11 +332,14 @@ def run_common(ctx, pid="C21"):
                        "listings) plus seeded histories of 40-60 calls on 3-6 keys, capacities 1..5, TTL 1..3 ticks, both "
                        "caches, caller-side modification of every stored and returned value; a sequential history is "
                        "non-trivial when it had a hit AND an eviction AND a miss on an expired entry; a concurrent history "
-                       "(2-3 goroutines x 3 calls, -race) is non-trivial when two calls overlap in the log")
+                       "is non-trivial when two calls overlap in the log: directed interleavings (cache kind x entry fresh / expired "
+                       "/ at the expiry instant / negative x spare room or full with the entry least recently used x the call placed "
+                       "exactly between the two critical sections of a Get, driven through the clock-read hook) and 2-3 goroutines x "
+                       "3 calls scheduled by the runtime, all under -race")
     ctx.cov["spec_actions_covered_by_impl"] = ["Get(hit/touch)", "Get(miss)", "Get(expired/expire)", "Put(new)", "Put(replace)",
                                                "Put(evict)", "Put(refused oversize)", "PutNegative(on/off)", "Invalidate",
                                                "InvalidateNegativeInDir", "InvalidateTree (when the tree has it)", "Resize(shrink/grow/default)", "UpdateTTL", "Clear",
-                                               "ConfigureNegativeCaching", "Tick", "StepG sections under 2-3 goroutines"]
+                                               "ConfigureNegativeCaching", "Tick", "StepG sections under 2-3 goroutines", "Get(decide) ; other call ; Get(touch / expire), every combination, directed"]
     ctx.assumptions += [
         "the in-package projection (cache/entries map, accessList front to back, expireAt/validUntil, maxSize, ttl, "
         "negativeTTL, enableNegative) is read faithfully under the cache's own lock",
